@@ -18,7 +18,8 @@ RULE = ("(1) strip_carets == independent caret automaton on EVERY string of leng
         "iff changed; (3) find_powershell_strings on constructed invocations (every -e..-encodedcommand prefix, -// styles, "
         "quoting, carets, 0-3 value-less switches, separators incl. ^CRLF) with expected start/end/value known by "
         "construction for clean separators, and on arbitrary text with the end rule recomputed (nearest quote / FOR opener "
-        "before the token; missing closer -> end of text). distinct_nontrivial = distinct texts with at least one shell result.")
+        "before the token; missing closer -> end of text). Added after the blind seed rounds: openers up to 20000 bytes before the invocation, encoded commands of up to 100 kB, payloads with a byte order mark (either byte order), an earlier invocation in the same text. "
+        "distinct_nontrivial = distinct texts with at least one shell result.")
 ASSUMPTIONS = ["'(?:.exe)' in the cmd token is read with an unescaped dot, as the pattern documents it",
                "white space is compared token-wise only when the stray closing quote of the command token is repaired",
                "the span of the decoded child of a caret-obfuscated encoded command is C03's known finding, not judged here"]
